@@ -482,10 +482,9 @@ package core
 //@   loop 4 invariant [results_so_far] 0 <= i && i <= n && n <= len(out) && len(result) == i && forall(k, 0, i, typeof(result[k]) == rv_src_t(out[k]) && ival(result[k]) == rv_src_v(out[k]))
 //@   ensures [published_function_is_called_exactly_once] !method_missing(typeof(method), ival(method)) ==> ghost.rcalls == old(ghost.rcalls) + 1
 //@   ensures_panic [never_called_twice] ghost.rcalls <= old(ghost.rcalls) + 1
-//@   ensures [arguments_reach_the_function_in_order] !method_missing(typeof(method), ival(method)) ==>
-//@       len(ghost.rcall_in) == len(args) + ite(method_passctx(typeof(method), ival(method)), 1, 0) && forall(k, 0, len(args), args[k] != nil ==>
-//@       rv_src_t(ghost.rcall_in[k + ite(method_passctx(typeof(method), ival(method)), 1, 0)]) == typeof(args[k]) &&
-//@       rv_src_v(ghost.rcall_in[k + ite(method_passctx(typeof(method), ival(method)), 1, 0)]) == ival(args[k]))
+//@   atcall Call [arguments_reach_the_function_in_order] len(in) == len(args) + ite(method_passctx(typeof(method), ival(method)), 1, 0) && forall(k, 0, len(args), args[k] != nil ==>
+//@       rv_src_t(in[k + ite(method_passctx(typeof(method), ival(method)), 1, 0)]) == typeof(args[k]) &&
+//@       rv_src_v(in[k + ite(method_passctx(typeof(method), ival(method)), 1, 0)]) == ival(args[k]))
 //@   ensures [results_come_back_in_order] !method_missing(typeof(method), ival(method)) ==>
 //@       len(result) == len(ghost.rcall_out) - ite(method_reterr(typeof(method), ival(method)), 1, 0) &&
 //@       forall(k, 0, len(result), typeof(result[k]) == rv_src_t(ghost.rcall_out[k]) && ival(result[k]) == rv_src_v(ghost.rcall_out[k]))
